@@ -1809,6 +1809,14 @@ func (db *DB) verifyWithExecutor(ctx context.Context, exec *syncExecutor) (info 
 	// Salt has changed which could indicate a FULL checkpoint.
 	// If we have a last page match, then we can assume that the WAL has not been overwritten.
 	if !saltMatch {
+		// That inference only holds while we have been holding our read lock since
+		// the last sync. If no sync has happened in this session, the application
+		// may have appended frames after our position and checkpointed them away
+		// before restarting the WAL; nothing in the WAL would show it.
+		if exec.state.lastSyncedWALOffset == 0 {
+			info.reason = "wal restarted while not being observed, snapshotting"
+			return info, nil
+		}
 		db.Logger.Log(ctx, internal.LevelTrace, "wal restarted",
 			"salt1", salt1,
 			"salt2", salt2)
